@@ -47,6 +47,7 @@ CONSTANTS
   CombineChecksRes,  \* FALSE: combined_layer as it is (res_range of the members is dropped)
   BestSrsFromList,   \* FALSE: preferred_src as it is (returns the SRS object of the rule, not the supported one)
   CombineChecksCodes,\* FALSE: _is_compatible as it is (supported_srs lists compared by SRS equality, not by code)
+  MissingSrsListCrashes, \* TRUE: as it is - comparing a source without supported_srs with one that has raises
   MapCases,          \* sequence of sets of <<sequence of layer names, query>> explored by the model checker (WMS GetMap)
   CallCases          \* sequence of sets of <<source id, query>> explored by the model checker (get_map of one source,
                      \* e.g. called by a tile manager)
@@ -168,15 +169,22 @@ Compatible(u, b, qq) ==
   /\ a.host = c.host
 
 Unit1(s) == [m |-> <<s>>, gate |-> TRUE]
+\* `self.supported_srs != other.supported_srs` compares a SupportedSRS object with the empty list a source without
+\* supported_srs carries: SupportedSRS.__eq__ raises AttributeError and the whole request fails (nothing is sent)
+Crashes(u, b) ==
+  LET a == Src[u.m[1]]  c == Src[b] IN
+  MissingSrsListCrashes /\ a.kind = "wms" /\ c.kind = "wms" /\ ~a.opq /\ ~c.opq /\ ((a.srs = <<>>) # (c.srs = <<>>))
 RECURSIVE Fold(_, _, _)
-Fold(units, rest, qq) ==
+Fold(units, rest, qq) ==       \* <<>> = crashed
   IF rest = <<>> THEN units
   ELSE LET last == units[Len(units)]  b == Head(rest) IN
-       IF Compatible(last, b, qq)
+       IF Crashes(last, b) THEN <<>>
+       ELSE IF Compatible(last, b, qq)
        THEN Fold([units EXCEPT ![Len(units)] = [m |-> Append(last.m, b), gate |-> FALSE]], Tail(rest), qq)
        ELSE Fold(Append(units, Unit1(b)), Tail(rest), qq)
 \* combined_layers(layers, query); the combined WMSSource gets res_range=None
 CombinedLayers(srcs, qq) == IF srcs = <<>> THEN <<>> ELSE Fold(<<Unit1(srcs[1])>>, Tail(srcs), qq)
+CombineCrashes(srcs, qq) == srcs # <<>> /\ CombinedLayers(srcs, qq) = <<>>
 
 ---------------------------------------------------------------------------
 \* upstream requests
@@ -259,8 +267,9 @@ FilterLayers ==
 Combine ==
   /\ pc = "combine"
   /\ todo' = CombinedLayers(todo, q)
+  /\ outs' = IF CombineCrashes(todo, q) THEN <<"error:AttributeError">> ELSE outs
   /\ pc' = "next"
-  /\ UNCHANGED <<q, cur, sent, outs, case>>
+  /\ UNCHANGED <<q, cur, sent, case>>
 
 \* somebody (a tile manager, a seeder) calls get_map of one source
 Call(s, qq) ==
@@ -431,7 +440,8 @@ PlanMap(l, qq) ==
   LET srcs == RenderList(l, qq)
       q1   == [qq EXCEPT !.dims = FwdDims(srcs, qq)]
       us   == CombinedLayers(srcs, q1)
-  IN [units |-> UnitMembers(us), results |-> RunUnits(us, q1)]
+  IN [units |-> UnitMembers(us),
+      results |-> IF CombineCrashes(srcs, q1) THEN {[sent |-> <<>>, outs |-> <<"error:AttributeError">>]} ELSE RunUnits(us, q1)]
 PlanCall(s, qq) == [units |-> <<<<s>>>>, results |-> RunUnits(<<Unit1(s)>>, qq)]
 
 \* ties the function to the actions: whenever a case is finished, what was sent is one of the planned results
